@@ -848,62 +848,188 @@ theorem stays_idle (v : Variant) (c : Cfg) (s : Pool) (op : Op) (j : Bool) (hop 
                    all_goals exact h
   | takeRecon i => cases i <;> cases j <;> simp_all [step, getB, clearRecon]
 
-/-- fixed code: a sender that is inside `pop` (parked in `swap` or blocked in the write) has a write deadline armed -/
-def DlInv (s : PoolD) : Prop := ∀ j, (getB s.p j).pc ≠ .idle → getDl s j = true
+/-- fixed code: (1) "every write happens with `armed`": a sender that is inside `pop` (parked in `swap` or blocked in the write)
+    has a write deadline on its current connection; (2) the bookkeeping never claims a deadline the connection does not have -/
+def DlInv (s : PoolD) : Prop :=
+  ∀ j, ((getB s.p j).pc ≠ .idle → getDl s j = true) ∧ (getBk s j ≠ .zero → getDl s j = true)
 
 theorem getDl_setDl (s : PoolD) (i j : Bool) (x : Bool) : getDl (setDl s i x) j = if j = i then x else getDl s j := by
   cases i <;> cases j <;> simp [getDl, setDl]
 
+theorem getDl_setBk (s : PoolD) (i j : Bool) (x : Book) : getDl (setBk s i x) j = getDl s j := by
+  cases i <;> cases j <;> simp [getDl, setBk]
+
+theorem getBk_setBk (s : PoolD) (i j : Bool) (x : Book) : getBk (setBk s i x) j = if j = i then x else getBk s j := by
+  cases i <;> cases j <;> simp [getBk, setBk]
+
+theorem getBk_setDl (s : PoolD) (i j : Bool) (x : Bool) : getBk (setDl s i x) j = getBk s j := by
+  cases i <;> cases j <;> simp [getBk, setDl]
+
 theorem setDl_p (s : PoolD) (i : Bool) (x : Bool) : (setDl s i x).p = s.p := by cases i <;> simp [setDl]
+theorem setBk_p (s : PoolD) (i : Bool) (x : Book) : (setBk s i x).p = s.p := by cases i <;> simp [setBk]
 
-theorem armFor_p (d : Deadline) (s : PoolD) (op : Op) : (armFor d s op).p = s.p := by
-  cases op <;> simp [armFor]
-  split <;> cases d <;> simp [arm, setDl_p]
+/-- `getDl`/`getBk` only look at the flags, not at the pool -/
+theorem getDl_with_p (s : PoolD) (q : Pool) (j : Bool) : getDl { s with p := q } j = getDl s j := by cases j <;> simp [getDl]
+theorem getBk_with_p (s : PoolD) (q : Pool) (j : Bool) : getBk { s with p := q } j = getBk s j := by cases j <;> simp [getBk]
 
-theorem armFor_mono (s : PoolD) (op : Op) (j : Bool) (h : getDl s j = true) : getDl (armFor .armed s op) j = true := by
-  cases op <;> simp [armFor, h]
-  split <;> simp [arm, getDl_setDl, h]
+/-- the flags of sender `j` after the loop-top refresh of sender `i` (fixed code) -/
+theorem arm_flags (s : PoolD) (i j : Bool) :
+    (getDl (arm .armed s i) j = true ∧ getBk (arm .armed s i) j = .fresh ∧ j = i ∧ getBk s i ≠ .fresh) ∨
+    (getDl (arm .armed s i) j = getDl s j ∧ getBk (arm .armed s i) j = getBk s j ∧ (j = i → getBk s i = .fresh)) := by
+  unfold arm needsRefresh
+  cases hb : getBk s i <;> by_cases hji : j = i <;> simp [hb, hji, getDl_setDl, getDl_setBk, getBk_setBk, getBk_setDl]
 
-theorem armFor_pop (s : PoolD) (j : Bool) (h : (getB s.p j).pc = .idle) : getDl (armFor .armed s (.pop j)) j = true := by
-  simp [armFor, h, arm, getDl_setDl]
+theorem arm_keeps (s : PoolD) (i j : Bool) (h1 : getDl s j = true) : getDl (arm .armed s i) j = true := by
+  rcases arm_flags s i j with h | h
+  · exact h.1
+  · rw [h.1]; exact h1
+
+/-- after the refresh of `i` the connection of `i` has a deadline, provided the bookkeeping was honest -/
+theorem arm_sets (s : PoolD) (i : Bool) (h2 : getBk s i ≠ .zero → getDl s i = true) : getDl (arm .armed s i) i = true := by
+  rcases arm_flags s i i with h | h
+  · exact h.1
+  · rw [h.1]; exact h2 (by rw [h.2.2 rfl]; simp)
+
+theorem arm_honest (s : PoolD) (i j : Bool) (h2 : getBk s j ≠ .zero → getDl s j = true) :
+    getBk (arm .armed s i) j ≠ .zero → getDl (arm .armed s i) j = true := by
+  rcases arm_flags s i j with h | h
+  · intro _; exact h.1
+  · rw [h.1, h.2.1]; exact h2
+
+/-- a write that returned an error leaves the sender in its loop position -/
+theorem failedWrite_idle (v : Variant) (c : Cfg) (s : Pool) (op : Op) (i : Bool)
+    (h : failedWrite op (step v c s op).2 = some i) : (getB (step v c s op).1 i).pc = .idle ∧ ∃ n, op = .wres i (.err n) := by
+  cases op with
+  | wres k r =>
+    cases r with
+    | ok => simp [failedWrite] at h
+    | err n =>
+      simp only [failedWrite] at h
+      split at h
+      · rename_i hev
+        cases h
+        refine ⟨?_, n, rfl⟩
+        simp only [step, onBuf, getB_setB_same] at hev ⊢
+        unfold writeDone at hev ⊢
+        split
+        · rename_i hpc; simp [hpc] at hev
+        · simp only at hev ⊢
+          split
+          · rename_i hbad; simp [hbad] at hev
+          · rfl
+      · cases h
+  | handle b => simp [failedWrite] at h
+  | pop k => simp [failedWrite] at h
+  | timer k => simp [failedWrite] at h
+  | wake k => simp [failedWrite] at h
+  | close => simp [failedWrite] at h
+  | stats => simp [failedWrite] at h
+  | report k ok => simp [failedWrite] at h
+  | takeRecon k => simp [failedWrite] at h
+
+theorem afterError_flags (s : PoolD) (i j : Bool) :
+    (getDl (afterError .armed s i) j = if j = i then false else getDl s j) ∧
+    (getBk (afterError .armed s i) j = if j = i then .zero else getBk s j) := by
+  simp [afterError, getDl_setDl, getDl_setBk, getBk_setBk, getBk_setDl]
 
 theorem dlinv_stepD (v : Variant) (c : Cfg) (s : PoolD) (op : OpD) (h : DlInv s) : DlInv (stepD .armed v c s op).1 := by
-  intro j hj
+  intro j
   cases op with
-  | base op =>
-    simp only [stepD] at hj ⊢
-    by_cases hidle : (getB s.p j).pc = .idle
-    · by_cases hpop : op = .pop j
-      · subst hpop
-        have := armFor_pop s j hidle
-        simpa [getDl] using this
-      · exact absurd (stays_idle v c s.p op j hpop hidle) hj
-    · have := armFor_mono s op j (h j hidle)
-      simpa [getDl] using this
+  | age i =>
+    simp only [stepD]
+    split
+    · refine ⟨?_, ?_⟩
+      · intro hj; rw [getDl_setBk]; exact (h j).1 (by simpa [setBk_p] using hj)
+      · intro hb
+        rw [getDl_setBk]
+        apply (h j).2
+        rw [getBk_setBk] at hb
+        by_cases hji : j = i
+        · subst hji; rename_i hf; simp at hf; rw [hf]; simp
+        · simpa [hji] using hb
+    · exact h j
   | deadline i n =>
-    simp only [stepD] at hj ⊢
+    simp only [stepD]
     by_cases hen : deadlineEnabled s i n = true
-    · simp only [hen, if_true] at hj ⊢
+    · simp only [hen, if_true]
+      have hfl := afterError_flags s i j
       simp only [deadlineEnabled, Bool.and_eq_true, beq_iff_eq, decide_eq_true_eq] at hen
+      have hlt : ¬ ((batch (getB s.p i)).length ≤ n) := by omega
       by_cases hji : j = i
       · subst hji
-        exfalso
-        apply hj
-        have hlt : ¬ ((batch (getB s.p j)).length ≤ n) := by omega
-        simp [step, onBuf, getB_setB_same, writeDone, hen.1.2, hlt]
-      · have hidle : (getB s.p j).pc ≠ .idle := fun hi =>
-          hj (stays_idle v c s.p (.wres i (.err n)) j (by simp) hi)
-        have := h j hidle
-        have h2 := getDl_setDl s i j false
-        simp only [hji, if_false] at h2
-        simpa [getDl] using h2.trans this
-    · simp only [hen] at hj ⊢
-      exact h j hj
+        refine ⟨?_, ?_⟩
+        · intro hj; exfalso; apply hj
+          simp [step, onBuf, getB_setB_same, writeDone, hen.1.2, hlt]
+        · intro hb; exfalso; apply hb
+          rw [getBk_with_p, hfl.2]; simp
+      · refine ⟨?_, ?_⟩
+        · intro hj
+          rw [getDl_with_p, hfl.1]; simp only [hji, if_false]
+          exact (h j).1 (fun hi => hj (stays_idle v c s.p (.wres i (.err n)) j (by simp) hi))
+        · intro hb
+          rw [getDl_with_p, hfl.1]; simp only [hji, if_false]
+          rw [getBk_with_p, hfl.2] at hb; simp only [hji, if_false] at hb
+          exact (h j).2 hb
+    · simp only [hen]; exact h j
+  | base op =>
+    simp only [stepD]
+    cases hf : failedWrite op (step v c s.p op).2 with
+    | some i =>
+      simp only
+      have hfl := afterError_flags s i j
+      obtain ⟨hidle, n, hop⟩ := failedWrite_idle v c s.p op i hf
+      by_cases hji : j = i
+      · subst hji
+        refine ⟨fun hj => absurd hidle hj, ?_⟩
+        intro hb; exfalso; apply hb
+        rw [getBk_with_p, hfl.2]; simp
+      · refine ⟨?_, ?_⟩
+        · intro hj
+          rw [getDl_with_p, hfl.1]; simp only [hji, if_false]
+          exact (h j).1 (fun hi => hj (stays_idle v c s.p op j (by rw [hop]; simp) hi))
+        · intro hb
+          rw [getDl_with_p, hfl.1]; simp only [hji, if_false]
+          rw [getBk_with_p, hfl.2] at hb; simp only [hji, if_false] at hb
+          exact (h j).2 hb
+    | none =>
+      simp only
+      rw [getDl_with_p, getBk_with_p]
+      -- armFor: only `pop i` from the loop position refreshes
+      cases op with
+      | pop i =>
+        simp only [armFor]
+        split
+        · rename_i hidle
+          simp only [beq_iff_eq] at hidle
+          refine ⟨?_, arm_honest s i j (h j).2⟩
+          intro hj
+          by_cases hji : j = i
+          · subst hji; exact arm_sets s j (h j).2
+          · exact arm_keeps s i j ((h j).1 (fun hi => hj (stays_idle v c s.p (.pop i) j (by simp; exact fun e => hji e.symm) hi)))
+        · rename_i hni
+          refine ⟨?_, (h j).2⟩
+          intro hj
+          by_cases hji : j = i
+          · subst hji
+            simp only [beq_iff_eq] at hni
+            exact (h j).1 hni
+          · exact (h j).1 (fun hi => hj (stays_idle v c s.p (.pop i) j (by simp; exact fun e => hji e.symm) hi))
+      | handle b => exact ⟨fun hj => (h j).1 (fun hi => hj (stays_idle v c s.p _ j (by simp) hi)), (h j).2⟩
+      | wres i r => exact ⟨fun hj => (h j).1 (fun hi => hj (stays_idle v c s.p _ j (by simp) hi)), (h j).2⟩
+      | timer i => exact ⟨fun hj => (h j).1 (fun hi => hj (stays_idle v c s.p _ j (by simp) hi)), (h j).2⟩
+      | wake i => exact ⟨fun hj => (h j).1 (fun hi => hj (stays_idle v c s.p _ j (by simp) hi)), (h j).2⟩
+      | close => exact ⟨fun hj => (h j).1 (fun hi => hj (stays_idle v c s.p _ j (by simp) hi)), (h j).2⟩
+      | stats => exact ⟨fun hj => (h j).1 (fun hi => hj (stays_idle v c s.p _ j (by simp) hi)), (h j).2⟩
+      | report i ok => exact ⟨fun hj => (h j).1 (fun hi => hj (stays_idle v c s.p _ j (by simp) hi)), (h j).2⟩
+      | takeRecon i => exact ⟨fun hj => (h j).1 (fun hi => hj (stays_idle v c s.p _ j (by simp) hi)), (h j).2⟩
 
 theorem dlinv_runD (v : Variant) (c : Cfg) (ops : List OpD) : ∀ s, DlInv s → DlInv (runD .armed v c s ops) := by
   induction ops with
   | nil => intro s h; exact h
   | cons op ops ih => intro s h; exact ih _ (dlinv_stepD v c s op h)
+
+theorem dlinv_init : DlInv {} := by
+  intro j; cases j <;> simp [getB, getBk]
 
 
 /-! ### addressPool.pick -/
